@@ -282,6 +282,28 @@ def run_cli(desc, ctx):
                 ctx.violation("cli-value|%s" % name, "-m %s -r %s -b %s row %d: csv %s, definition %r (table %s)"
                               % (name, ts, b, i, rows[i][-1], want, (a, bb, c, dd)), {"metric": name, "bin": b})
 
+        # the deterministic ROC diagram plots the same hit / false alarm rates (it fetches the whole data block itself)
+        for bd in (["below", "below=", "above", "above="] if name == "hit" else []):
+            import matplotlib.pyplot as mpl
+            o = runner.run_cli([path, "-m", "droc0", "-r", gen.fnum(ts[1]), "-b", bd], keep_fig=True)
+            if o.status == "ok" and o.fig is not None and o.fig.axes:
+                ln = [l_ for l_ in o.fig.axes[0].get_lines() if l_.get_label() == "cat.txt"]
+                a = bb = c = dd = 0
+                for ov, fv in pairs:
+                    eo = attach.in_documented_event(ov, bd, ts[1], None)
+                    ef = attach.in_documented_event(fv, bd, ts[1], None)
+                    a += ef and eo
+                    bb += ef and not eo
+                    c += (not ef) and eo
+                    dd += (not ef) and (not eo)
+                if ln and len(ln[0].get_xdata()) == 3:
+                    gx, gy = float(ln[0].get_xdata()[1]), float(ln[0].get_ydata()[1])
+                    wfa, whit = refmetrics.categorical("fa", a, bb, c, dd), refmetrics.categorical("hit", a, bb, c, dd)
+                    ctx.count("droc_points")
+                    if (wfa == wfa and abs(gx - wfa) > 1e-9) or (whit == whit and abs(gy - whit) > 1e-9):
+                        ctx.violation("droc0-point|%s" % bd, "-m droc0 -r %s -b %s plots (false alarm rate, hit rate) = (%r, %r); the table %s gives "
+                                      "(%r, %r)" % (ts[1], bd, gx, gy, (a, bb, c, dd), wfa, whit), {"metric": "droc0", "bin": bd})
+            mpl.close("all")
         # the same score along another axis: one event -> the definition on that slice's table; several events -> verif
         # averages the per-event scores ("Average all thresholds")
         from vmon import refmodel
